@@ -116,7 +116,7 @@ class Probe(Stream):
         log.nd += 1
         d = log.nd
         extra = {}
-        if isinstance(x, (int, tuple, list)):
+        if isinstance(x, (int, tuple, list)) or x is None:
             extra = {"rawx": x if not isinstance(x, list) else list(x)}
         if isinstance(x, str):
             extra = {"text": x, "raw": list(x.encode("utf-8"))}
